@@ -74,6 +74,9 @@ def gen_cases(ctx, tier):
         for k in range(n_run):
             c = {"id": cid, "preset": preset, "mode": "run", "vseed": r.getrandbits(63),
                  "chain_seed": r.getrandbits(32), "zarr": k < n_zarr, "control": k == 0}
+            if k < n_zarr and k % 2 == 1:
+                # an earlier run with the preset's default settings has written to the same store
+                c["zarr_reuse"] = True
             if k < 3:
                 c["hints"] = {"method": k, "kind": (k + 1) % 3, "jitter": (k + 1) % 3, "tit": k}
             cases.append(c)
